@@ -285,7 +285,77 @@ func opFile(st *state, args []string) []string {
 		strings.Join(failed, ","), strings.Join(missing, ","), strings.Join(dup, ","), junk)}
 }
 
-func init() { ops["filestress"] = opFileStress }
+func init() { ops["filestress"] = opFileStress; ops["filefault"] = opFileFault }
+
+// filefault <n> <sep-hex>: n messages are sent, then the output is rotated with a SIGHUP whose reopen FAILS (the file is
+// renamed away and a directory sits at the path), then n more messages are sent. A message whose Send reported success
+// must be in the old or the new file; a Send that cannot write must say so.
+func opFileFault(st *state, args []string) []string {
+	if len(args) != 2 {
+		return []string{"bad-op"}
+	}
+	n, err := strconv.Atoi(args[0])
+	sep, ok := unhex(args[1])
+	if err != nil || !ok || n < 1 || n > 200 {
+		return []string{"bad-op"}
+	}
+	dir, err := os.MkdirTemp("", "verif-filefault-")
+	if err != nil {
+		return []string{"bad-op"}
+	}
+	defer os.RemoveAll(dir)
+	path := filepath.Join(dir, "out.log")
+	flag.Set("transport.file", path)
+	flag.Set("transport.file.sep", string(sep))
+	reopened := make(chan struct{}, 8)
+	filetr.VerifHook = func(point string) {
+		if point == "file.reopened" {
+			select {
+			case reopened <- struct{}{}:
+			default:
+			}
+		}
+	}
+	defer func() { filetr.VerifHook = nil }()
+	tr, err := transport.FindTransport("file")
+	if err != nil {
+		return []string{resErr(err)}
+	}
+	msg := func(i int) []byte { return []byte(fmt.Sprintf("<%d:%s>", i, strings.Repeat("m", 10+i%40))) }
+	acked := map[int]bool{}
+	for i := 0; i < n; i++ {
+		if tr.Send(nil, msg(i)) == nil {
+			acked[i] = true
+		}
+	}
+	os.Rename(path, path+".0")
+	os.Mkdir(path, 0o755)
+	syscall.Kill(os.Getpid(), syscall.SIGHUP)
+	select {
+	case <-reopened:
+	case <-time.After(500 * time.Millisecond):
+	}
+	time.Sleep(20 * time.Millisecond)
+	for i := n; i < 2*n; i++ {
+		if tr.Send(nil, msg(i)) == nil {
+			acked[i] = true
+		}
+	}
+	if c, ok := interface{}(tr).(interface{ Close() error }); ok {
+		c.Close()
+	}
+	all, _ := os.ReadFile(path + ".0")
+	if b, err := os.ReadFile(path); err == nil {
+		all = append(all, b...)
+	}
+	lost := 0
+	for i := range acked {
+		if !bytes.Contains(all, append(msg(i), sep...)) {
+			lost++
+		}
+	}
+	return []string{fmt.Sprintf("res ok lostacked=%d", lost)}
+}
 
 // filestress <workers> <msgs-per-worker> <rotations> <sep-hex>: unscheduled concurrent senders on the real
 // file transport (message sizes from a few bytes to well above 16 KiB), with rename + SIGHUP rotations in
